@@ -650,6 +650,42 @@ func main() {
 		die("ToServer: defaults are applied after httpContentDecompressor is built")
 	}
 	outerLimit := posMax > posDec // wrapped later = runs earlier = outermost
+	// … and the interceptor wraps EVERY request: its handler body is exactly
+	//   r.Body = http.MaxBytesReader(w, r.Body, maxRecvSize); next.ServeHTTP(w, r)
+	mi := funcDecl(hf, "", "maxRequestBodySizeInterceptor")
+	unconditional := false
+	ast.Inspect(mi, func(n ast.Node) bool {
+		fl, ok := n.(*ast.FuncLit)
+		if !ok {
+			return true
+		}
+		if len(fl.Body.List) != 2 {
+			return false
+		}
+		as, ok1 := fl.Body.List[0].(*ast.AssignStmt)
+		es, ok2 := fl.Body.List[1].(*ast.ExprStmt)
+		if !ok1 || !ok2 || len(as.Lhs) != 1 || len(as.Rhs) != 1 {
+			return false
+		}
+		lhs, ok1 := as.Lhs[0].(*ast.SelectorExpr)
+		call, ok2 := as.Rhs[0].(*ast.CallExpr)
+		if !ok1 || !ok2 || lhs.Sel.Name != "Body" || len(call.Args) != 3 {
+			return false
+		}
+		fn, ok1 := call.Fun.(*ast.SelectorExpr)
+		src, ok2 := call.Args[1].(*ast.SelectorExpr)
+		lim, ok3 := call.Args[2].(*ast.Ident)
+		if !ok1 || !ok2 || !ok3 || fn.Sel.Name != "MaxBytesReader" || src.Sel.Name != "Body" || lim.Name != "maxRecvSize" {
+			return false
+		}
+		if c2, ok := es.X.(*ast.CallExpr); ok {
+			if f2, ok := c2.Fun.(*ast.SelectorExpr); ok && f2.Sel.Name == "ServeHTTP" {
+				unconditional = true
+			}
+		}
+		return false
+	})
+	outerLimit = outerLimit && unconditional
 
 	var b strings.Builder
 	b.WriteString("/- GENERATED by /verif/translators/cmd/compression from the Go sources — do not edit. -/\n")
@@ -681,7 +717,7 @@ func main() {
 	fmt.Fprintf(&b, "def availableDecodersOnlyRead : Bool := %v\n\n", onlyRead)
 	b.WriteString("/-- status passed to `errHandler` by `decompressor.ServeHTTP` -/\n")
 	fmt.Fprintf(&b, "def rejectStatus : Nat := %d\n\n", rejectStatus)
-	b.WriteString("/-- `ToServer`: `maxRequestBodySizeInterceptor` wraps (runs before) `httpContentDecompressor` -/\n")
+	b.WriteString("/-- `ToServer`: `maxRequestBodySizeInterceptor` wraps (runs before) `httpContentDecompressor`, and wraps the body of EVERY request unconditionally -/\n")
 	fmt.Fprintf(&b, "def outerLimitOnWire : Bool := %v\n\n", outerLimit)
 	b.WriteString("/-- confighttp.go defaults -/\n")
 	fmt.Fprintf(&b, "def defaultCompressionAlgorithms : List String := %s\n", leanStrList(defAlgos))
